@@ -282,6 +282,21 @@ bool apply_workload_edit(std::string& d, const Step& st)
     for (size_t i = a->vb; i < a->ve; i++) d[i] = st.arg(1) % 2 ? (char)toupper((unsigned char)d[i]) : (char)tolower((unsigned char)d[i]);
     return true;
   }
+  if (st.op == "ids") {
+    // a point identifier that needs escaping, written with entities (every attribute that refers to the point is renamed)
+    std::vector<int> pts = tags_named({"point"}); if (pts.empty()) return false;
+    std::string id; { const xmlscan::Tag& T = S.tags[pts[(size_t)st.arg(0) % pts.size()]]; for (auto& a : T.attrs) if (d.substr(a.nb, a.ne - a.nb) == "id") id = d.substr(a.vb, a.ve - a.vb); }
+    if (id.empty() || id.find('&') != std::string::npos) return false;
+    // (no '<': gama-local's RESULT writer does not escape identifiers either - C12's territory - and a raw '<' in the
+    //  result document would derail this harness's own flattener)
+    static const char* SUF[] = {"&amp;", "&amp;amp;", "&gt;", "&quot;q", "&#228;", " b"};
+    std::string nid = id + SUF[st.arg(1) % 6];
+    // replace from the back so that offsets stay valid
+    struct R { size_t b, e; }; std::vector<R> rs;
+    for (auto& T : S.tags) for (auto& a : T.attrs) { std::string n = d.substr(a.nb, a.ne - a.nb); if ((n == "id" || n == "from" || n == "to" || n == "bs" || n == "fs") && d.substr(a.vb, a.ve - a.vb) == id) rs.push_back({a.vb, a.ve}); }
+    for (size_t i = rs.size(); i-- > 0;) d.replace(rs[i].b, rs[i].e - rs[i].b, nid);
+    return !rs.empty();
+  }
   if (st.op == "prec") {
     // more significant digits than the archive usually has (a value like 141.44 survives any rounding on output)
     std::vector<int> v = tags_named({"z-angle", "s-distance", "direction", "distance", "angle", "dh", "azimuth"}); if (v.empty()) return false;
@@ -427,8 +442,8 @@ Plan RestartEngine::generate(uint64_t seed, uint64_t, const std::string&)
   if (g.chance(1, 5)) { extra += " --cov-band 1"; later += " --cov-band 1"; }
   p.set("extra", extra); p.set("extra_later", later);
   int ne = g.chance(1, 3) ? 0 : (int)g.range(1, 4);
-  static const char* W[] = {"dh", "dh", "adh", "ext", "dist", "status", "noise", "prec", "prec"};
-  for (int i = 0; i < ne; i++) { Step s; s.op = W[g.below(9)]; s.a = {(long long)g.below(1000), (long long)g.below(1000), (long long)g.below(1000)}; p.steps.push_back(s); }
+  static const char* W[] = {"dh", "dh", "adh", "ext", "dist", "status", "noise", "prec", "prec", "ids"};
+  for (int i = 0; i < ne; i++) { Step s; s.op = W[g.below(10)]; s.a = {(long long)g.below(1000), (long long)g.below(1000), (long long)g.below(1000)}; p.steps.push_back(s); }
   return p;
 }
 
